@@ -39,6 +39,7 @@ type Script struct {
 	SignFn   func(ctx context.Context, keyName string) error // non-nil error fails the signature
 	KeyIDFn  func(keyName string) []byte                     // id of the key currently in the token
 	Signer   func(keyName string) crypto.Signer              // override key material (nil = from key file)
+	CertBlob func(keyName string) []byte                     // certificate chain "stored in the token" (nil = none)
 }
 
 var (
@@ -152,7 +153,7 @@ func (t *fakeToken) GetKey(ctx context.Context, keyName string) (token.Key, erro
 	}
 	s := t.script()
 	s.mu.Lock()
-	gk, idf, sg := s.GetKeyFn, s.KeyIDFn, s.Signer
+	gk, idf, sg, cb := s.GetKeyFn, s.KeyIDFn, s.Signer, s.CertBlob
 	s.mu.Unlock()
 	if gk != nil {
 		if err := gk(ctx, keyName); err != nil {
@@ -177,7 +178,11 @@ func (t *fakeToken) GetKey(ctx context.Context, keyName string) (token.Key, erro
 	if idf != nil {
 		id = idf(keyName)
 	}
-	return &fakeKey{Key: inner, tok: t, name: keyName, id: id}, nil
+	fk := &fakeKey{Key: inner, tok: t, name: keyName, id: id}
+	if cb != nil {
+		fk.blob = cb(keyName)
+	}
+	return fk, nil
 }
 
 func (t *fakeToken) Import(string, crypto.PrivateKey) (token.Key, error) {
@@ -198,6 +203,14 @@ type fakeKey struct {
 	tok  *fakeToken
 	name string
 	id   []byte
+	blob []byte
+}
+
+func (k *fakeKey) Certificate() []byte {
+	if k.blob != nil {
+		return k.blob
+	}
+	return k.Key.Certificate()
 }
 
 func (k *fakeKey) GetID() []byte { return k.id }
